@@ -532,8 +532,11 @@ def make_backend_class():
             super().__init__()
             self.bad, self.rng, self.max_epochs = dict(bad), rng, max_epochs
             self.tr, self.clock = {}, 0
+            self.runs, self.run_polls = {}, {}
 
         def _schedule(self, trial_id, config):
+            self.runs[trial_id] = self.runs.get(trial_id, 0) + 1
+            self.run_polls[trial_id] = 0
             if trial_id not in self.tr:
                 self.tr[trial_id] = TrialResult(trial_id=trial_id, config=config, creation_time=datetime.datetime(2020, 1, 1),
                                                 status=Status.in_progress, metrics=[])
@@ -547,7 +550,13 @@ def make_backend_class():
                 t = self.tr[tid]
                 if t.status == Status.in_progress:
                     plan = self.bad.get(tid)
-                    if plan is not None and len(t.metrics) >= plan[0]:
+                    self.run_polls[tid] = self.run_polls.get(tid, 0) + 1
+                    if plan is not None and len(plan) > 3 and plan[3]:
+                        # bad end only in a run that was resumed after a pause, plan[0] polls into that run
+                        due = self.runs.get(tid, 0) >= 2 and self.run_polls[tid] > plan[0]
+                    else:
+                        due = plan is not None and len(t.metrics) >= plan[0]
+                    if due:
                         if len(plan) > 2 and plan[2] and len(t.metrics) < self.max_epochs:
                             # the run's last report becomes visible in the same poll as its bad status
                             self.clock += 1
@@ -621,7 +630,12 @@ def run_tuner(spec):
 
     orig_fetch = backend.fetch_status_results
 
+    class PollCap(Exception):
+        pass
+
     def fetch(trial_ids):
+        if len(polls) > spec.get("poll_cap", 600):
+            raise PollCap("harness poll cap reached; running = %r" % sorted(trial_ids))
         tsd, res = orig_fetch(trial_ids)
         if cur["statuses"] is not None:
             polls.append(dict(cur))
@@ -844,6 +858,20 @@ def _run(ctx, replay):
             bad = {str(t): [rng.choice([0, 0, 1]), "failed", False] for t in range(ntr) if rng.random() < rate}
             specs.append(dict(kind=list(kind), seed=rng.randrange(10 ** 6), ntrials=ntr, workers=rng.choice([1, 1, 2, 4]),
                               max_failures=100, bad=bad, wait=rng.random() < 0.3))
+        # trials stopped from outside the scheduler: after they were paused and resumed, and never-paused ones (control)
+        for _ in range(ctx.n(16, 160)):
+            kind = rng.choice([("hb", "promotion", "random"), ("hb", "promotion", "random"), ("synchb", "random"),
+                               ("synchb_custom", "min"), ("pbt",), ("hb", "rush_promotion", "random")])
+            ntr = rng.randint(8, 16)
+            bad = {}
+            for t in range(ntr):
+                u = rng.random()
+                if u < 0.5:
+                    bad[str(t)] = [rng.choice([0, 0, 1]), "stopped", False, True]       # after pause -> resume
+                elif u < 0.65:
+                    bad[str(t)] = [rng.choice([0, 1, 2]), "stopped", False]             # never paused before
+            specs.append(dict(kind=list(kind), seed=rng.randrange(10 ** 6), ntrials=ntr, workers=rng.choice([1, 2, 3]),
+                              max_failures=100, bad=bad, wait=rng.random() < 0.3, poll_cap=400))
         # directed (b-ckpt's scenario): one worker, every job fails before its first report
         specs.append(dict(kind=["synchb_custom", "min"], seed=2, ntrials=10, workers=1, max_failures=100,
                           bad={str(t): [0, "failed", False] for t in range(10)}, wait=False))
@@ -856,7 +884,20 @@ def _run(ctx, replay):
         case = dict(part="B", spec=spec)
         ctx.traces_validated += 1
         errs_total, bad_total, failed_ids = 0, 0, []
+        if res["outcome"] is not None and res["outcome"][0] == "PollCap":
+            ctx.violation("property", "Tuner run does not terminate: after %d polls the harness poll cap was reached (%s); "
+                          "spec %r" % (len(res["polls"]), res["outcome"][1], spec), case=case,
+                          signature=dict(part="tuner", check="run_does_not_terminate", scheduler="/".join(spec["kind"])))
+        n_ext_after_resume = 0
         for pi, p in enumerate(res["polls"]):
+            if pi + 1 < len(res["polls"]):
+                nxt = dict(res["polls"][pi + 1]["statuses"])
+                for t, st_ in p["statuses"]:
+                    if st_ in ("stopped", "failed") and nxt.get(t) == st_:
+                        ctx.violation("property", "Tuner poll #%d: trial %d has status %s but is still in the running set at the "
+                                      "next poll (worker never freed)" % (pi, t, st_), case=case,
+                                      signature=dict(part="tuner", check="ended_trial_stays_in_running_set", status=st_))
+                        break
             per = {}
             for c, t in p["calls"]:
                 if c == "CError":
@@ -870,6 +911,8 @@ def _run(ctx, replay):
                     failed_ids.append(t)
                 if bad_end:
                     bad_total += 1
+                    if s == "stopped" and any(tt == t for (tt, _) in res["resumed"]):
+                        n_ext_after_resume += 1
                 # exactly one on_trial_error per badly ended run; if the scheduler itself ended the run in the same
                 # poll (STOP/PAUSE for one of the new results) it has been told by on_trial_remove: 0 or 1 accepted
                 ok = (n == 1) if (bad_end and t not in decided_now) else (n <= 1 if bad_end else n == 0)
@@ -890,6 +933,7 @@ def _run(ctx, replay):
         ctx.h("B_bad_runs", bad_runs)
         ctx.h("B_max_failures", spec["max_failures"])
         ctx.h("B_on_trial_error_calls", errs_total)
+        ctx.h("B_external_stops_after_pause_resume", min(n_ext_after_resume, 5))
         for (t, was_errored) in res["resumed"]:
             if was_errored and spec["kind"][0] == "hb":
                 ctx.h("B_errored_trial_resumed", "/".join(spec["kind"]))
@@ -902,7 +946,7 @@ def _run(ctx, replay):
         out = res["outcome"]
         ctx.h("B_outcome", "error" if out else "ok")
         named = None
-        if out is not None:
+        if out is not None and out[0] != "PollCap":
             if out[0] != "ValueError" or not out[1].startswith("Trial - ") or not out[1].endswith(" failed"):
                 sig = dict(part="tuner", check="unexpected_exception", exception=out[0], scheduler="/".join(spec["kind"]),
                            family=spec["kind"][0], failure_rate_high=len(spec["bad"]) * 2 >= spec["ntrials"])
